@@ -26,7 +26,7 @@ _names = set()
 
 
 def inst(name, expr, kind, nmax, props, family, meta=None, memsafe=True, unwind_min=0,
-         cost=None, mem=3, covers_required=True):
+         cost=None, mem=3, covers_required=True, flavor="model"):
     assert name not in _names, name
     _names.add(name)
     props = {p: t for p, t in props.items() if t is not None}
@@ -35,7 +35,7 @@ def inst(name, expr, kind, nmax, props, family, meta=None, memsafe=True, unwind_
     INSTANCES.append(dict(
         name=name, expr=expr, kind=kind, nmax=nmax, props=props, family=family,
         meta=meta or {}, memsafe=memsafe, unwind_min=unwind_min, cost=cost, mem=mem,
-        covers_required=covers_required,
+        covers_required=covers_required, flavor=flavor,
     ))
 
 
@@ -133,6 +133,21 @@ def _split():
                         t = THOROUGH
                     step(op, kind, n, "inv", "or", {op_: t}, tables=f"idk{k}", grow=grow,
                          cost=(40 if kind == "dq" else 10) * n)
+    # extraction from identity tables (the sift starts at a concrete position): the sizes at
+    # which the trickle-down reaches grandchildren of both children of the root
+    for n, t in ((6, QUICK), (7, QUICK), (8, THOROUGH), (9, THOROUGH), (15, THOROUGH), (16, THOROUGH)):
+        for op in ("pop_lo", "pop_hi", "pop_lo_if"):
+            if n >= 15 and op == "pop_lo_if":
+                continue
+            step(op, "dq", n, "inv", "or", {"C02": t, "C08": t if op == "pop_lo_if" else None}, tables="id",
+                 cost=30 * n if n < 15 else 1500, mem=3 if n < 15 else 16)
+    for n, t in ((8, QUICK), (9, THOROUGH), (15, THOROUGH), (16, THOROUGH)):
+        step("pop_hi", "pq", n, "inv", "or", {"C01": t}, tables="id", cost=10 * n)
+    # two min levels crossed (C02's "sizes >= 16"): position split at n = 15, 16
+    for n in (15, 16):
+        for op, grow, keys in (("push", 1, (n,)), ("change_priority", 0, (0, 7, n - 1)), ("remove", 0, (0, 3))):
+            for k in keys:
+                step(op, "dq", n, "inv", "or", {"C02": THOROUGH}, tables=f"idk{k}", grow=grow, cost=2500, mem=16)
     # C11 / C12 on the min-max heap at n = 4: every position, all groups
     for n, t in ((4, QUICK), (6, THOROUGH)):
         for op in ("push_increase", "push_decrease"):
@@ -507,6 +522,8 @@ def _cost():
             if op in ("push", "change", "remove", "pop_hi", "pop_lo"):
                 for n in (15, 16):
                     keys = [0, 1, 3, 7, n - 1, n] if op in ("push", "change", "remove") else [0]
+                    if dq:
+                        keys = {"push": [n], "change": [0, n - 1], "remove": [3]}.get(op, [0]) if n == 16 else []
                     for k in keys:
                         grow = 1 if op == "push" else 0
                         inst(f"cost_{kind}_{op}_n{n}_idk{k}", f"cost::cost::<{ty}, {n}>({opi}, Tables::IdentityKey({k}))",
